@@ -1,3 +1,4 @@
+// l1req: REQ histories (see harness/l1run).
 package main
 
 import (
@@ -7,6 +8,7 @@ import (
 	"os"
 	"time"
 
+	"mangosverif/l1run"
 	"mangosverif/mp"
 	"mangosverif/seq"
 
@@ -58,7 +60,7 @@ func genReq(r *rand.Rand, timed bool) (string, string, string) {
 	if timed {
 		scripts = reqTimedScripts
 	}
-	if i := reqScriptIdx[timed]; i < len(scripts) && scriptsEnabled {
+	if i := reqScriptIdx[timed]; i < len(scripts) && l1run.ScriptsEnabled {
 		script = scripts[i]
 		reqScriptIdx[timed] = i + 1
 	}
@@ -391,7 +393,11 @@ func (g *reqGen) apply(o op) {
 	case "pass":
 		g.passes++
 		d.NowMs()
-		time.Sleep(passMs * time.Millisecond)
+		ms := passMs
+		if o.a > 0 {
+			ms = o.a
+		}
+		time.Sleep(time.Duration(ms) * time.Millisecond)
 		d.Finish("SPass", nil, true, t0)
 	}
 }
@@ -425,6 +431,12 @@ var reqTimedScripts = [][]op{
 		{k: "recv", a: 0}, {k: "pass"}, {k: "recv", a: 0}},
 	// pipe loss then the first transmission's timer
 	{{k: "opt", a: 0, b: 0, c: shortRetry}, {k: "addpipe"}, {k: "addpipe"}, {k: "send", a: 0}, {k: "drop", a: 1}, {k: "pass"}, {k: "pass"}},
+	// a timer left over from an abandoned request must not re-send the next request early
+	{{k: "opt", a: 0, b: 0, c: shortRetry}, {k: "addpipe"}, {k: "addpipe"}, {k: "send", a: 0}, {k: "drop", a: 1}, {k: "pass", a: 55},
+		{k: "send", a: 0}, {k: "pass", a: 70}, {k: "pass", a: 60}},
+	// answered during the retry interval: no retransmission afterwards; retry disabled later
+	{{k: "opt", a: 0, b: 0, c: shortRetry}, {k: "addpipe"}, {k: "send", a: 0}, {k: "pass", a: 50}, {k: "reply", a: 1, b: 101}, {k: "pass", a: 80},
+		{k: "recv", a: 0}, {k: "send", a: 0}, {k: "opt", a: 0, b: 0, c: 0}, {k: "pass", a: 130}},
 }
 
 func (g *reqGen) canonOf(realb []byte) []byte {
@@ -435,3 +447,5 @@ func (g *reqGen) canonOf(realb []byte) []byte {
 	k := (id - g.base) & 0x7fffffff
 	return append(be32((id&0x80000000)|k), realb[4:]...)
 }
+
+func main() { l1run.Main(genReq) }
